@@ -232,6 +232,12 @@ public:
                             std::chrono::milliseconds timeout =
                               std::chrono::milliseconds{30000}) override;
 
+  /// \brief connectSync() for a caller that resolved the host name itself:
+  /// \p host is the address to connect to, \p tlsServerName the name the TLS
+  /// peer must prove (certificate name check when verifyPeer is on, and SNI).
+  ConnectResult connectSync(const std::string &host, std::uint16_t port, TlsMode tls,
+                            std::chrono::milliseconds timeout, const std::string &tlsServerName);
+
   SendResult sendSync(SessionId sid, iora::core::BufferView data,
                       std::chrono::milliseconds timeout =
                         std::chrono::milliseconds{30000}) override;
